@@ -799,8 +799,7 @@ def timeoutAct (cfg : Cfg) (l : Led) (h : Nat) (tx : Tx) (rc : Rcpt) : TOAct :=
         else .add (h + i.timeout.toNat) id
       else if i.typ.isResponse then
         match l.getS (.txRec id) with
-        | some (.trec r) =>
-          if i.typ = .receiptFailure ∧ r.status = .failure then .skip else .remove r.height id
+        | some (.trec r) => .remove r.height id
         | some _ => .abort
         | none => match l.getS (.child id) with
           | some _ => .skip
